@@ -64,3 +64,10 @@ reg("C40", "model_checking", "TLA+ spec TravelCalc (integer ticks, estimate spec
     "and every trace must be a behaviour of the spec (no call raises, estimate within one unit of the exact rational value, monotone, exactly the target once the travel time has elapsed).",
     "Trusted: TLC (32-bit integers: 1 tick = 1/1024 s, travel times <= 60 s). time.time is replaced by a tick clock.",
     "DESIGN.md section 5 C40")
+
+reg("C19", "exploration", "TLA+ reference of KNX Data Secure CCM (AES-128, CBC-MAC, CTR) evaluated by TLC on recorded SecureData outputs",
+    "An independent executable TLA+ transcription of AES-128 and the KNX CCM construction, first validated against two frames not produced by xknx "
+    "(a captured group frame and the AN158 Annex A example), recomputes MAC and ciphertext for every recorded SecureData.init_from_plain_apdu output; "
+    "random keys, addresses, address types, frame formats, TPCI, SCF, sequence numbers, APDU lengths (boundary set quick, 0..240 thorough), both algorithms.",
+    "Trusted: TLC's evaluator; the reference is anchored to external vectors at every run. Sampling, not exhaustive.",
+    "DESIGN.md section 5 C19")
